@@ -118,6 +118,7 @@ structure PS where
   curPrec : Nat := 0               -- currentExpressionPrecedence
   trace : List Event := []
   nexts : Nat := 2                 -- number of lexer.NextToken calls so far (two at construction)
+  consumed : List TokType := []    -- ghost: types of the tokens the cursor has moved past (not observable in Go)
 
 def eofAgain (t : Token) : Token := { t with nl := false, comments := [] }
 
@@ -136,9 +137,9 @@ def PS.peek (st : PS) : Token :=
 /-- `Parser.NextToken` -/
 def PS.next (st : PS) : PS :=
   match st.toks with
-  | _ :: t :: ts => { st with toks := t :: ts, nexts := st.nexts + 1 }
-  | [t] => { st with toks := [eofAgain t], nexts := st.nexts + 1 }
-  | [] => { st with nexts := st.nexts + 1 }
+  | a :: t :: ts => { st with toks := t :: ts, nexts := st.nexts + 1, consumed := st.consumed ++ [a.type] }
+  | [t] => { st with toks := [eofAgain t], nexts := st.nexts + 1, consumed := st.consumed ++ [t.type] }
+  | [] => { st with nexts := st.nexts + 1, consumed := st.consumed ++ [dummyTok.type] }
 
 /-- decimal digits of a natural number (for `fmt.Sprintf("unknown(%d)", tt)`) -/
 def natDigits (n : Nat) : Bytes := (Nat.toDigits 10 n).map Char.toNat
